@@ -64,6 +64,7 @@ func main() {
 	case "config":
 		stats = famConfig(tr, *scratch, *seed, *tier, *workers, *profile)
 	case "pkg":
+		repoDir = *repo
 		stats = famPkg(tr, *scratch, *seed, *tier, *workers, *profile)
 	default:
 		fmt.Fprintln(os.Stderr, "unknown family", fam)
